@@ -275,6 +275,12 @@ pub fn run(thorough: bool, seed: u64, driver: &str, rep: &mut Report) {
                 if i % 7 == 0 {
                     crate::c05::collide_internal_names(&mut rng, &mut t, 40);
                 }
+                // quoted labels next to plain ones: the quotes are part of the name (that is how the parser stores them) — in the
+                // taxa of both matrices, in their sorted order, and for lookups by name
+                if i % 9 == 4 {
+                    t.for_each_mut(&mut |x, _, _| if x.kids.is_empty() { if let Some(n) = x.name.as_mut() { match rng.below(4) { 0 => *n = format!("\"{n}\""), 1 => *n = format!("\"{n} x\""), _ => {} } } }, true, 0);
+                    rep.count("trees_with_quoted_leaf_labels");
+                }
                 // stream B (decimal lengths) has no exact model tie: the harness compares within 1e-9
                 one_tree(&t, &mut rng, rep, &mut batch, job.exact && size <= 120);
                 rep.count(if job.exact { "random:stream-A-exact" } else { "random:stream-B-1e-9" });
@@ -286,6 +292,34 @@ pub fn run(thorough: bool, seed: u64, driver: &str, rep: &mut Report) {
         },
         rep,
     );
+    // lengths at the very top of the float range: a path of 2^1023 + 2^1022 is finite and exactly representable; both matrices
+    // and the pairwise query must return it (no intermediate doubling, averaging or squaring may overflow)
+    for (k, text) in ["(A:8.98846567431158e307,B:4.49423283715579e307);", "((A:8.98846567431158e307,C:1):1,B:4.49423283715579e307,D:2);",
+                      "(A:4.49423283715579e307,(B:4.49423283715579e307,C:2.247116418577895e307):2.247116418577895e307);"].iter().enumerate() {
+        let case = format!("real.parse\t{}", hex(text));
+        rep.case(&case, true);
+        rep.count("trees_with_lengths_at_the_top_of_the_float_range");
+        let Ok(t) = Tree::from_newick(text) else { continue };
+        let (fast, rec) = (real_dm(&t, false).1, real_dm(&t, true).1);
+        let leaves = t.get_leaves();
+        let mut bad = vec![];
+        for a in leaves.iter() {
+            for b in leaves.iter() {
+                if a >= b { continue; }
+                let (na, nb) = (t.get(a).unwrap().name.clone().unwrap(), t.get(b).unwrap().name.clone().unwrap());
+                let want = t.get_distance(a, b).ok().and_then(|d| d.0);
+                for (which, m) in [("fast", &fast), ("recursive", &rec)] {
+                    let got = m.as_ref().and_then(|(taxa, cells)| { let (i, j) = (taxa.iter().position(|x| *x == na)?, taxa.iter().position(|x| *x == nb)?); let (i, j) = (i.max(j), i.min(j)); cells.get(i * (i - 1) / 2 + j).cloned() });
+                    if got.map(|v| v.to_bits()) != want.map(|v| v.to_bits()) || !want.map_or(false, |v| v.is_finite()) {
+                        bad.push(format!("{which} {na}-{nb}: {got:?} vs get_distance {want:?}"));
+                    }
+                }
+            }
+        }
+        if !bad.is_empty() {
+            rep.oracle("matrix", "top-of-range-path-length", &format!("{case}\n(tree {k}: {text})"), &bad.join("; "));
+        }
+    }
     // degenerate: unnamed leaves / empty tree must be errors (never panics) on both sides
     let mut batch = Batch::new("c08.matrix");
     for s in ["((h41:-[-],-:-[-])-:-[-],h42:-[-])-:-[-]", "h41:-[-]", "(h41:3ff0000000000000[-])-:-[-]"] {
